@@ -66,7 +66,7 @@ instance {α : Type} [Codec α] : Codec (Option α) :=
 instance : Codec Unit := ⟨fun t => some ((), t), fun _ => []⟩
 def excCode : PyExc → Int
   | .KeyError => 0 | .ValueError => 1 | .TypeError => 2 | .IndexError => 3 | .ZeroDivisionError => 4
-  | .StopIteration => 5 | .RecursionError => 6 | .Other => 7
+  | .StopIteration => 5 | .RecursionError => 6 | .Other => 7 | .OutOfFuel => 8
 def encExcept {α : Type} [Codec α] : Except PyExc α → List Int
   | .ok v => 1 :: Codec.enc v
   | .error e => [0, excCode e]
@@ -729,6 +729,46 @@ def r_opt(n, xs):
         return xs
     return xs[:n]
 
+def w_sum(n):
+    i = 0
+    acc = 0
+    while i < n:
+        acc += i
+        i += 1
+    return acc
+
+def w_drain(xs, lim):
+    out = []
+    rest = list(xs)
+    while rest:
+        top = rest[-1]
+        if top > lim:
+            break
+        out.append(top * 2)
+        rest.pop()
+    else:
+        out.append(-1)
+    return out
+
+def w_gcd(a, b):
+    while b != 0:
+        a, b = b, a % b
+    return a
+
+def w_try(xs, i):
+    total = 0
+    while True:
+        try:
+            total += xs[i]
+        except IndexError:
+            return total
+        i += 1
+
+def w_diverges(n):
+    while n >= 0:
+        n += 1
+    return n
+
 class Box:
     def put(self, k, v):
         if k in self.d:
@@ -809,6 +849,16 @@ SNIPPET_SPECS += [
      'raises': True},
     {'qualname': 'r_opt', 'params': {'n': 'Option Int', 'xs': 'List Int'}, 'kind': 'function', 'result': 'List Int',
      'raises': True},
+    {'qualname': 'w_sum', 'params': {'n': 'Int'}, 'kind': 'function', 'result': 'Int', 'raises': True,
+     'loop_fuel': True},
+    {'qualname': 'w_drain', 'params': {'xs': 'List Int', 'lim': 'Int'}, 'kind': 'function', 'result': 'List Int',
+     'raises': True, 'loop_fuel': True},
+    {'qualname': 'w_gcd', 'params': {'a': 'Int', 'b': 'Int'}, 'kind': 'function', 'result': 'Int', 'raises': True,
+     'loop_fuel': True},
+    {'qualname': 'w_try', 'params': {'xs': 'List Int', 'i': 'Int'}, 'kind': 'function', 'result': 'Int',
+     'raises': True, 'loop_fuel': True},
+    {'qualname': 'w_diverges', 'params': {'n': 'Int'}, 'kind': 'function', 'result': 'Int', 'raises': True,
+     'loop_fuel': True},
 ]
 for _sp in SNIPPET_SPECS:
     _sp.update(module='snippets', lean_name=_sp['qualname'], tie_theorem='-')
@@ -901,6 +951,22 @@ def fam_snippet(name):
         elif name == 'r_opt':
             for _ in range(n):
                 yield dict(n=rng.choice([None, None, -1, 0, 1, 2, 3, 9]), xs=_ints(rng, rng.randint(0, 5)))
+        elif name == 'w_sum':
+            for a in range(-2, 60):
+                yield dict(n=a)
+        elif name == 'w_drain':
+            for _ in range(n):
+                yield dict(xs=_ints(rng, rng.randint(0, 7), -3, 9), lim=rng.randint(-3, 9))
+        elif name == 'w_gcd':
+            for a in range(-6, 30):
+                for b in range(-6, 12):
+                    yield dict(a=a, b=b)
+        elif name == 'w_try':
+            for _ in range(n):
+                yield dict(xs=_ints(rng, rng.randint(0, 6)), i=rng.randint(-8, 7))
+        elif name == 'w_diverges':
+            for a in (-5, -1) if quick else (-5, -1, 0):
+                yield dict(n=a)
         elif name.startswith('Box.'):
             ks = ['a', 'b', 'c', '']
             for _ in range(2 * n):
@@ -990,8 +1056,8 @@ def build_driver(pids, repo, snippets=False):
             pat = names[0] if len(names) == 1 else '(' + ', '.join(names) + ')'
             full = 'Src.%s.%s' % (short, spec['lean_name'])
             st = '{ %s }' % ', '.join('%s := f_%s' % (f, f) for f, _ in fields)
-            call = '(%s %s%s %s)' % (full, ('%d ' % FUEL) if tr.fuel else '', st,
-                                     ' '.join('a_' + pn for pn, _ in params))
+            call = '(%s %s%s%s %s)' % (full, ('%d ' % FUEL) if tr.fuel else '', '400 ' if tr.loop_fuel else '', st,
+                                       ' '.join('a_' + pn for pn, _ in params))
             val = 'encExcept r' if tr.raises else 'Codec.enc r'
             if tr.cls_mut:
                 val = val.replace(' r', ' r.1') + ' ++ ' + ' ++ '.join('Codec.enc r.2.%s' % f for f, _ in fields)
@@ -1006,6 +1072,11 @@ def build_driver(pids, repo, snippets=False):
         call = ' '.join(names)
         full = 'Src.%s.%s' % (short, spec['lean_name'])
         encf = 'encExcept' if tr.raises else 'Codec.enc'
+        if tr.loop_fuel:
+            arms.append('  | %d :: t => (match (Codec.dec t : Option (%s × List Int)) with\n'
+                        '    | some (%s, []) => showInts ([1] ++ encExcept (%s 400 %s))\n'
+                        '    | _ => "bad-args")' % (n, argt, pat, full, call))
+            continue
         arms.append('  | %d :: t => (match (Codec.dec t : Option (%s × List Int)) with\n'
                     '    | some (%s, []) => showInts (Codec.enc (%s_pre %s) ++ %s (%s %s))\n'
                     '    | _ => "bad-args")' % (n, argt, pat, full, call, encf, full, call))
@@ -1144,7 +1215,9 @@ def run(pids, quick=False, seed=0, verbose=True, snippets=False):
             except Exception as e:  # noqa: BLE001
                 want = 'unencodable %r (%s)' % (res, e)
             if res == 'CaseTimeout':
-                bad = 'Python does not terminate'
+                # a loop that does not end: the Lean side must have run out of fuel (and only then)
+                if val != [0, 8]:
+                    bad = 'Python does not terminate but Lean stream %s' % (val,)
             elif want != val:
                 bad = 'Python %s %r (stream %s) but Lean stream %s' % (kind, res, want, val)
             if bad:
@@ -1281,6 +1354,8 @@ REJECT2 = [
      'f', {'params': {'n': 'Int', 'xs': 'List Int'}, 'result': 'Int', 'raises': True}),
     ('while loop (raising mode)', 'def f(n):\n    while n > 0:\n        n -= 1\n    return n\n',
      'f', {'params': {'n': 'Int'}, 'result': 'Int', 'raises': True}),
+    ('while loop inside a for loop', 'def f(n):\n    for i in range(n):\n        while n > 0:\n            n -= 1\n    return n\n',
+     'f', {'params': {'n': 'Int'}, 'result': 'Int', 'raises': True, 'loop_fuel': True}),
     ('two for clauses in a comprehension', 'def f(xs):\n    return [x + y for x in xs for y in xs]\n',
      'f', {'params': {'xs': 'List Int'}, 'result': 'List Int', 'raises': True}),
     ('lambda outside sorted(key=)', 'def f(xs):\n    g = lambda x: x\n    return xs\n',
